@@ -1,8 +1,71 @@
 import Oracle.Util
+import MobiusModel.Crash
 /-! Oracle handlers for C20 (model functions exposed on the line protocol). -/
 namespace Oracle
-open Mobius
+open Mobius Mobius.Crash
 
-def c20Handlers : List (String × Handler) := []
+def fnv64' (b : Bytes) : UInt64 :=
+  b.foldl (fun h c => (h ^^^ c.toUInt64) * 1099511628211) 14695981039346656037
+
+def digest' (b : Bytes) : String := s!"{b.length}/{(fnv64' b).toNat}"
+
+/-- Update specs: `T:<tmp>:<p>:<data>` write-temp-then-rename, `C:<tmp>:<final>:<data>` create by link,
+    `R:<tmp>:<old>:<new>:<data>` rename + update, `D:<p>` delete, `W:<p>:<data>` direct write (negative witness). -/
+def parseSpec (s : String) : Option (List Sys) :=
+  match s.splitOn ":" with
+  | ["T", t, p, d] => some (tempRename t.toList p.toList (hexb d))
+  | ["C", t, f, d] => some (createLink t.toList f.toList (hexb d))
+  | ["R", t, o, n, d] => some (renameUpdate t.toList o.toList n.toList (hexb d))
+  | ["D", p] => some [.remove p.toList]
+  | ["W", p, d] => some (directWrite p.toList (hexb d))
+  | _ => none
+
+def showSys : Sys → String
+  | .openTrunc p => s!"open:{String.ofList p}"
+  | .write p d => s!"write:{String.ofList p}:{digest' d}"
+  | .close p => s!"close:{String.ofList p}"
+  | .rename a b => s!"rename:{String.ofList a}:{String.ofList b}"
+  | .link a b => s!"link:{String.ofList a}:{String.ofList b}"
+  | .remove p => s!"unlink:{String.ofList p}"
+
+def parseEntry (s : String) : Option (Name × Bytes) :=
+  match s.splitOn ":" with
+  | [n, d] => some (n.toList, hexb d)
+  | _ => none
+
+def listing (fs : FS) : String :=
+  let l := (fs.map fun e => s!"{String.ofList e.1}={digest' e.2}").toArray.qsort (· < ·)
+  " ".intercalate l.toList
+
+/-- What the loader of the store in question looks at. -/
+def observe (vis : String) (fs : FS) : List (Option Bytes) :=
+  match vis.splitOn "=" with
+  | ["file", p] => [get fs p.toList]
+  | _ => (contents isYaml fs).map some
+
+def c20Handlers : List (String × Handler) := [
+  -- c20prog <spec> → the system-call program
+  ("c20prog", fun (a : List String) => match a with
+    | [s] => match parseSpec s with
+      | some prog => " ".intercalate (prog.map showSys)
+      | none => "bad-op"
+    | _ => "bad-op"),
+  -- c20sim <spec> <k> <yaml | file=<p>> <name:hex>…  → listing of the crash state | old/new/both/torn
+  ("c20sim", fun (a : List String) => match a with
+    | s :: k :: vis :: ents =>
+      match parseSpec s, ents.mapM parseEntry with
+      | some prog, some fs =>
+        let st := crash prog (num k) fs
+        let fin := crash prog prog.length fs
+        let o := observe vis st
+        let isOld := o == observe vis fs
+        let isNew := o == observe vis fin
+        let verdict := if isOld && isNew then "both" else if isOld then "old" else if isNew then "new" else "torn"
+        listing st ++ " | " ++ verdict ++ s!" {prog.length}"
+      | _, _ => "bad-op"
+    | _ => "bad-op"),
+  -- c20glob <name>… → which names the account loader's glob matches
+  ("c20glob", fun (a : List String) => " ".intercalate (a.map fun n => if isYaml n.toList then "1" else "0"))
+]
 
 end Oracle
